@@ -410,3 +410,159 @@ Proof.
   - apply NoDup_enqueue. exact (i_qnd _ I).
   - exact Hh.
 Qed.
+
+(** ** AdjustPool *)
+Lemma amount_of_nonneg cs d : Forall (fun c => 0 < snd c) cs -> 0 <= amount_of cs d.
+Proof.
+  unfold amount_of. induction 1 as [|[d0 x] cs Hx Hcs IH]; simpl; [lia|].
+  destruct (eq_dec d d0); [simpl in Hx; lia|exact IH].
+Qed.
+
+Lemma rule_sum_by_denom (g : denom -> Z) rs d :
+  rule_sum (fun r => g (r_denom r)) rs d = rule_sum (fun _ => 1) rs d * g d.
+Proof.
+  unfold rule_sum. induction rs as [|r rs IH]; simpl; [reflexivity|]. rewrite IH.
+  destruct (Z.eqb_spec (r_denom r) d) as [->|Hne]; lia.
+Qed.
+
+Lemma rule_count_notin rs d : ~ In d (map r_denom rs) -> rule_sum (fun _ => 1) rs d = 0.
+Proof.
+  unfold rule_sum. induction rs as [|r rs IH]; simpl; intros Hni; [reflexivity|].
+  destruct (Z.eqb_spec (r_denom r) d) as [He|Hne]; [exfalso; apply Hni; left; exact He|].
+  rewrite IH; [reflexivity|]. intros Hi; apply Hni; right; exact Hi.
+Qed.
+
+Lemma rule_count_in rs d : NoDup (map r_denom rs) -> In d (map r_denom rs) -> rule_sum (fun _ => 1) rs d = 1.
+Proof.
+  induction rs as [|r rs IH]; simpl; intros Hnd Hin; [contradiction|].
+  inversion Hnd as [|? ? Hni Hnd']; subst. unfold rule_sum. simpl.
+  destruct (Z.eqb_spec (r_denom r) d) as [He|Hne].
+  - subst d. fold (rule_sum (fun _ => 1) rs (r_denom r)). rewrite (rule_count_notin _ _ Hni). reflexivity.
+  - destruct Hin as [Hi|Hi]; [contradiction|]. fold (rule_sum (fun _ => 1) rs d). rewrite (IH Hnd' Hi). reflexivity.
+Qed.
+
+Lemma csum_notin cs d : ~ In d (map fst cs) -> csum cs d = 0.
+Proof.
+  unfold csum. induction cs as [|[d0 x] cs IH]; simpl; intros Hni; [reflexivity|].
+  destruct (Z.eqb_spec d0 d) as [He|Hne]; [exfalso; apply Hni; left; exact He|].
+  rewrite IH; [reflexivity|]. intros Hi; apply Hni; right; exact Hi.
+Qed.
+
+Lemma topup_sum rs add d :
+  NoDup (map r_denom rs) -> NoDup (map fst add) ->
+  Forall (fun c => exists r, In r rs /\ r_denom r = fst c) add ->
+  rule_sum (fun r => amount_of add (r_denom r)) rs d = csum add d.
+Proof.
+  intros Hnd Hnda Hsub. rewrite (rule_sum_by_denom (amount_of add)). rewrite (amount_of_csum _ _ Hnda).
+  destruct (in_dec Z.eq_dec d (map r_denom rs)) as [Hin|Hni].
+  - rewrite (rule_count_in _ _ Hnd Hin). lia.
+  - rewrite (rule_count_notin _ _ Hni). rewrite csum_notin; [lia|].
+    intros Hi. apply in_map_iff in Hi. destruct Hi as [c [Hc Hin]]. rewrite Forall_forall in Hsub.
+    destruct (Hsub c Hin) as (r & Hr & Hd). apply Hni. apply in_map_iff. exists r. split; [congruence|exact Hr].
+Qed.
+
+Lemma adj_rules_fields add rpb rs :
+  map (fun r => (r_denom r, r_rps r)) (map (adj_pb rpb) (map (adj_topup add) rs)) = map (fun r => (r_denom r, r_rps r)) rs
+  /\ map r_denom (map (adj_pb rpb) (map (adj_topup add) rs)) = map r_denom rs.
+Proof. rewrite !map_map. simpl. split; reflexivity. Qed.
+
+Lemma rule_sum_rem_adj add rpb rs d :
+  rule_sum r_rem (map (adj_pb rpb) (map (adj_topup add) rs)) d
+  = rule_sum r_rem rs d + rule_sum (fun r => amount_of add (r_denom r)) rs d.
+Proof. unfold rule_sum. induction rs as [|r rs IH]; simpl; [reflexivity|]. rewrite IH. destruct (r_denom r =? d); lia. Qed.
+
+Lemma adjust_inv s who pid add rpb s' rw : inv s -> actor who -> adjust s who pid add rpb = Done s' rw -> inv s'.
+Proof.
+  intros I (HwF & HwC & _) H. destruct (adjust_Done _ _ _ _ _ _ _ H) as (p & p1 & b1 & b2 & iv & Hs). cbv zeta in Hs.
+  destruct Hs as (Hsa & Hadd & Hrpb & Hg & _ & -> & Hex & Hsub & Hu & Hsend & Hmin & _ & ->).
+  pose proof (get_pool_inv _ _ _ I Hg) as PI. pose proof (not_expired_in_queue _ _ _ I Hg Hex) as Hq.
+  destruct (i_sched _ I _ _ Hg Hq) as [Hhe Hcov0].
+  destruct (end_after _ _ _ _ _ _ Hu) as (Hend & Hfs & Hlpt & Hlk & Hst & Hla & Hcr & _ & Hden).
+  destruct (update_pool_true _ _ _ _ _ _ _ Hu) as (Hlast & _ & _ & _ & Hb1).
+  destruct (send_many_bal _ _ _ _ _ Hsend) as [_ Hb2].
+  pose proof (rules_ok_after _ _ _ _ _ _ PI Hu) as Hok1.
+  pose proof (covered_after _ _ _ _ _ _ (p_farmers p1) PI Hu Hcov0) as Hcov1. unfold covered in Hcov1. simpl in Hcov1.
+  rewrite Hend, Hst, Hla in Hcov1.
+  set (started := p_start p <=? height s) in *.
+  set (start_h := if started then height s else p_start p) in *.
+  set (e := start_h + iv) in *.
+  set (p2 := with_end (with_rules p1 (adj_rules add rpb p1)) e).
+  assert (NoDup (map fst add)) as Hnda by (apply sorted_strict_NoDup; exact Hsa).
+  (* per rule: the new reward per block covers the schedule up to the new end height *)
+  assert (forall r, In r (p_rules p1) ->
+            0 < r_pb (adj_pb rpb (adj_topup add r))
+            /\ 0 <= adj_avail started (p_end p1 - start_h) add (adj_topup add r) <= r_rem r + amount_of add (r_denom r)) as Hper.
+  { intros r Hin. rewrite Forall_forall in Hok1, Hcov1. destruct (Hok1 r Hin) as (Hrem & Hpb & _). specialize (Hcov1 r Hin).
+    pose proof (amount_of_nonneg add (r_denom r) ltac:(eapply Forall_impl; [|exact Hadd]; simpl; intros; lia)) as Ha.
+    pose proof (amount_of_nonneg rpb (r_denom r) ltac:(eapply Forall_impl; [|exact Hrpb]; simpl; intros; lia)) as Hr.
+    split.
+    - simpl. destruct (Z.ltb_spec 0 (amount_of rpb (r_denom r))); lia.
+    - unfold adj_avail. simpl. rewrite Hend. unfold start_h, started in *. destruct (Z.leb_spec (p_start p) (height s)) as [Hs'|Hs'].
+      + assert (Z.max (p_start p) (height s) = height s) as Hm by lia. rewrite Hm in Hcov1. nia.
+      + assert (Forall (fun r => r_rem r = r_total r) (p_rules p1)) as Hfr.
+        { destruct (update_pool_true _ _ _ _ _ _ _ Hu) as (_ & _ & _ & -> & _). simpl.
+          destruct (upd_iv_cases _ _ Hlast) as [Hz|(_ & HL & _)].
+          - rewrite Hz, collect1_zero. exact (pi_fresh _ _ PI Hs').
+          - pose proof (pi_started _ _ PI HL). lia. }
+        rewrite Forall_forall in Hfr. specialize (Hfr r Hin). lia. }
+  assert (height s <= e /\ Forall (fun r => r_pb r * (e - Z.max (p_start p) (height s)) <= r_rem r) (adj_rules add rpb p1)) as [Hhe' Hcov2].
+  { assert (0 <= iv) as Hiv.
+    { eapply (min_interval_ge 0); [|exact Hmin]. rewrite !Forall_map. apply Forall_forall. intros r Hin. cbn [fst snd].
+      destruct (Hper r Hin) as [Hpb [Ha _]]. apply Z.quot_pos; lia. }
+    split.
+    - unfold e, start_h, started. destruct (Z.leb_spec (p_start p) (height s)); lia.
+    - destruct (min_interval_Some _ _ Hmin) as [_ Hall]. rewrite !Forall_map in Hall. unfold adj_rules. rewrite !Forall_map.
+      rewrite Forall_forall in Hall. apply Forall_forall. intros r Hin. specialize (Hall r Hin). cbn [fst snd] in Hall.
+      destruct (Hper r Hin) as [Hpb [Ha Hle]].
+      pose proof (quot_mul_le _ _ _ Ha Hpb Hall) as Hm. cbn [r_pb r_rem adj_pb adj_topup] in *.
+      assert (e - Z.max (p_start p) (height s) = iv) as ->; [|lia].
+      unfold e, start_h, started. destruct (Z.leb_spec (p_start p) (height s)); lia. }
+  assert (pool_inv (height s) p2) as PI2.
+  { constructor; simpl.
+    - rewrite sum_locked_eq. simpl. rewrite Hfs, Hlk. rewrite <- sum_locked_eq. rewrite (pi_sum _ _ PI). lia.
+    - rewrite Hfs. exact (pi_farmers _ _ PI).
+    - unfold adj_rules. pose proof (pi_rules _ _ PI) as Hne. destruct (p_rules p1) eqn:Er; [|discriminate].
+      apply (f_equal (@length denom)) in Hden. rewrite !map_length in Hden. simpl in Hden. destruct (p_rules p); [congruence|discriminate].
+    - unfold adj_rules. rewrite !Forall_map. apply Forall_forall. intros r Hin. destruct (Hper r Hin) as [Hpb [Ha Hle]].
+      rewrite Forall_forall in Hok1. destruct (Hok1 r Hin) as (Hrem & _ & Hrps). unfold rule_ok. simpl in *.
+      pose proof (amount_of_nonneg add (r_denom r) ltac:(eapply Forall_impl; [|exact Hadd]; simpl; intros; lia)). lia.
+    - unfold adj_rules. rewrite (proj2 (adj_rules_fields add rpb (p_rules p1))), Hden. exact (pi_denoms _ _ PI).
+    - lia.
+    - rewrite Hlk, Hst, Hla. intros HL. pose proof (pi_started _ _ PI ltac:(lia)). lia.
+    - rewrite Hst. intros Hfr. unfold adj_rules. rewrite !Forall_map.
+      destruct (update_pool_true _ _ _ _ _ _ _ Hu) as (_ & _ & _ & -> & _). simpl.
+      destruct (upd_iv_cases _ _ Hlast) as [Hz|(_ & HL & _)]; [|pose proof (pi_started _ _ PI HL); lia].
+      rewrite Hz, collect1_zero. eapply Forall_impl; [|exact (pi_fresh _ _ PI Hfr)]. simpl. intros r ->. reflexivity.
+    - rewrite Hcr. exact (pi_creator _ _ PI). }
+  set (q' := if e =? p_end p1 then queue s else enqueue (dequeue (queue s) (p_end p1, pid)) (e, pid)).
+  assert (in_queue q' (e, pid) = true) as Hinq.
+  { unfold q'. destruct (Z.eqb_spec e (p_end p1)) as [He|He]; [rewrite He, Hend; exact Hq|].
+    apply in_queue_true. apply in_enqueue. right. reflexivity. }
+  apply (inv_replace s pid p p2 q' b2 I Hg PI2).
+  - unfold q'. destruct (e =? p_end p1); [exact (i_qnd _ I)|]. apply NoDup_enqueue. apply NoDup_dequeue. exact (i_qnd _ I).
+  - intros e' pid' Hne. unfold q'. destruct (e =? p_end p1); [reflexivity|].
+    destruct (in_queue (queue s) (e', pid')) eqn:E.
+    + apply in_queue_true. apply in_enqueue. left. apply in_dequeue. split; [apply in_queue_true; exact E|congruence].
+    + apply in_queue_false. intros Hi. apply in_enqueue in Hi. destruct Hi as [Hi|Hi]; [|congruence].
+      apply in_dequeue in Hi. destruct Hi as [Hi _]. apply in_queue_false in E. contradiction.
+  - intros e' Hin. simpl. unfold q' in Hin. destruct (Z.eqb_spec e (p_end p1)) as [He|He].
+    + destruct (i_qwf _ I _ _ Hin) as (p' & Hg' & He'). rewrite Hg in Hg'. inversion Hg'; subst p'. lia.
+    + apply in_queue_true in Hin. apply in_enqueue in Hin. destruct Hin as [Hi|Hi]; [|congruence].
+      apply in_dequeue in Hi. destruct Hi as [Hi Hne]. apply in_queue_true in Hi.
+      destruct (i_qwf _ I _ _ Hi) as (p' & Hg' & He'). rewrite Hg in Hg'. inversion Hg'; subst p'. exfalso. apply Hne. congruence.
+  - intros _. simpl. split; [exact Hhe'|]. unfold covered. simpl. rewrite Hst, Hla. exact Hcov2.
+  - simpl. rewrite Hinq. discriminate.
+  - intros d. rewrite !pool_contrib_eq. simpl. unfold adj_rules. rewrite rule_sum_rem_adj.
+    rewrite (topup_sum _ add d); [|rewrite Hden; exact (pi_denoms _ _ PI)|exact Hnda|].
+    + rewrite Hlpt, Hlk. rewrite Hb2, Hb1. rewrite (moved_many_to (p_creator p) FARM) by exact HwF.
+      rewrite (moved_many_from FARM COLL) by discriminate. rewrite csum_collected.
+      destruct (update_pool_true _ _ _ _ _ _ _ Hu) as (_ & _ & _ & -> & _). simpl. rewrite rule_sum_rem_collect. destruct (p_lpt p =? d); lia.
+    + eapply Forall_impl; [|exact Hsub]. intros c (r & Hr & Hd).
+      assert (In (r_denom r) (map r_denom (p_rules p1))) as Hi by (rewrite Hden; apply in_map; exact Hr).
+      apply in_map_iff in Hi. destruct Hi as (r1 & Hd1 & Hr1). exists r1. split; [exact Hr1|congruence].
+  - intros d. rewrite Hb2, Hb1. rewrite (moved_many_other COLL (p_creator p) FARM) by (try discriminate; congruence).
+    rewrite (moved_many_to FARM COLL) by discriminate. rewrite csum_collected.
+    destruct (owed_p_after _ _ _ _ _ _ d PI Hu) as [Hop _].
+    rewrite (owed_p_ext p2 p1 d); [lia|reflexivity|]. simpl. unfold adj_rules.
+    exact (proj1 (adj_rules_fields add rpb (p_rules p1))).
+Qed.
